@@ -5,7 +5,7 @@ package main
 
 const numberLess = "(github.com/openconfig/goyang/pkg/yang.Number).Less"
 
-const compBound = "composition universe: a chain of n nested containers (each with a leaf), every level placed by one of {inline, grouping+uses from another module, grouping using a nested grouping, augment from another module, choice with explicit case, choice with implicit case} under one of {module body, submodule body, rpc input, rpc output, notification}, with config true/false/absent at every level of a data tree"
+const compBound = "composition universe: a chain of n nested containers, every level placed by one of {inline, grouping+uses from another module, grouping using a nested grouping, augment from module a, augment from a second module b2 (chains across three modules), choice with explicit case, choice with implicit case} under one of {module body, submodule body, rpc input, rpc output, notification, rpc input not written, rpc output not written}, with config true/false/absent at every level of a data tree, and next to the last level a leaf, leaf-list or list with its own config true/false/absent"
 
 var errSortStub = map[string]string{"errorSort": "hErrorSortStub"}
 
@@ -119,7 +119,7 @@ func properties() []Property {
 		{
 			ID: "C12",
 			Harnesses: []Harness{
-				{Name: "H12", Pkg: "yang", Fn: "H12", Quick: map[string]int{"n": 3}, Thorough: map[string]int{"n": 4}, Redirects: errSortStub,
+				{Name: "H12", Pkg: "yang", Fn: "H12", Quick: map[string]int{"n": 2}, Thorough: map[string]int{"n": 3}, Redirects: errSortStub,
 					Reach: []string{"processed"}, MaxSteps: 100000000, TimeoutMs: 30000,
 					Bound: compBound, Outside: "deeper chains; sibling subtrees; config statements inside rpc/action/notification (as quantified); the read-only-ness of implicit case nodes (not written in the source)"},
 			},
@@ -128,11 +128,30 @@ func properties() []Property {
 		{
 			ID: "C17",
 			Harnesses: []Harness{
-				{Name: "H17", Pkg: "yang", Fn: "H17", Quick: map[string]int{"n": 2}, Thorough: map[string]int{"n": 3}, Redirects: errSortStub,
+				{Name: "H17", Pkg: "yang", Fn: "H17", Quick: map[string]int{"n": 1}, Thorough: map[string]int{"n": 2}, Redirects: errSortStub,
 					Reach: []string{"processed"}, MaxSteps: 200000000, TimeoutMs: 30000,
 					Bound: compBound + "; every (start node, target node) pair: absolute prefixed spelling from every start whose defining module imports the tree's module, relative spelling with .. steps within a tree, and every absolute path with one step replaced by a name (zz + symbolic letter) that no node has", Outside: "start nodes defined in a module that does not import the target tree's module (the property's 'any module that imports the needed prefixes')"},
 				{Name: "H17comp", Pkg: "yang", Fn: "H17comp", Redirects: errSortStub, Reach: []string{"processed"}, MaxSteps: 200000000, TimeoutMs: 30000,
 					Bound: "the composite schema (4 modules + submodule: groupings in list/rpc/notification/augment, chained and submodule augments, implicit cases, action, rpc input/output not written in the source; 65 nodes): every start x every target x absolute/relative/one bad step", Outside: "other schemas"},
+			},
+			Assumptions: []string{"errorSort replaced by a pass-through stub (engine side)"},
+		},
+		{
+			ID: "C07",
+			Harnesses: []Harness{
+				{Name: "H07", Pkg: "yang", Fn: "H07", Quick: map[string]int{"n": 2}, Thorough: map[string]int{"n": 3}, Redirects: errSortStub,
+					Reach: []string{"processed"}, MaxSteps: 200000000, TimeoutMs: 30000,
+					Bound: compBound + "; restricted to schemas with at least one augment; second run of the same sources on a fresh set in one of three other load orders", Outside: "augment targets through implicit cases and uses-augment (as quantified); more than two augmenting modules; all 120 load orders (C05 explores map orders)"},
+				{Name: "H07err", Pkg: "yang", Fn: "H07err", Redirects: errSortStub, Reach: []string{"accepted", "rejected"}, MaxSteps: 50000000, TimeoutMs: 30000,
+					Bound: "two augmenting modules, each adding one leaf with a symbolic name over {x,y,z,w} to a symbolic target over {container holding x and y, a leaf, a missing node}; two load orders", Outside: "larger collision patterns"},
+			},
+			Assumptions: []string{"errorSort replaced by a pass-through stub (engine side)"},
+		},
+		{
+			ID: "C06",
+			Harnesses: []Harness{
+				{Name: "H06", Pkg: "yang", Fn: "H06", Redirects: errSortStub, Reach: []string{"processed", "aimed"}, MaxSteps: 400000000, TimeoutMs: 30000,
+					Bound: "grouping body drawn from {leaf with typedef'd type, with/without default} x {leaf-list with bounds, list with bound, none} x {empty container} x {choice with explicit and implicit case} x {nested uses of a sibling grouping holding an identityref, grouping scoped in a container of the grouping, none}; defined in the using module or in another module (same-named typedef and identity at both sites); used in two containers, a list and a container of a third module; compared with the body written inline; then a module aiming a default replacement, a list-attribute deviation and an augment at the first instance only (every subset), on a fresh set", Outside: "refine and uses-augment (as quantified); deeper grouping nesting"},
 			},
 			Assumptions: []string{"errorSort replaced by a pass-through stub (engine side)"},
 		},
